@@ -50,6 +50,8 @@ use serde_json::json;
 const GATE: &str = "netreport.after_done_signal";
 /// between the release of the report lock and the done signal of a finishing run
 const GATE_UNLOCKED: &str = "netreport.between_unlock_and_done";
+/// a finished run that still holds the report lock
+const GATE_LOCKED: &str = "netreport.before_unlock";
 
 #[derive(Default, Clone, Copy, Debug)]
 struct Counts {
@@ -417,6 +419,53 @@ fn main() {
             }
             run_oracle(&rep, "unlock-window", it, json!({"mode": "unlock-window"}));
         }
+
+        // ---- controlled mode 3: a *periodic* re-probe request (20-26 s timer of the socket actor)
+        // arriving while a run still holds the report lock.  The run is held before its lock
+        // release until the periodic request has been logged as deferred; it must be started
+        // once the run has finished like any other request.
+        let iters3 = if a.replay.is_some() { 1 } else { a.pick(2, 6) };
+        for it in 0..iters3 {
+            if !idle(Duration::from_secs(40)).await {
+                rep.inconclusive("not-quiescent-before-iteration");
+                continue;
+            }
+            let base = gate::events().len();
+            gate::set_hold_limit(Duration::from_secs(50));
+            gate::arm(GATE_LOCKED, 1);
+            request(&ep, &bogus).await;
+            let held = tokio::task::spawn_blocking(|| gate::wait_held(GATE_LOCKED, Duration::from_secs(60))).await.unwrap_or(false);
+            if !held {
+                gate::disarm(GATE_LOCKED);
+                gate::release(GATE_LOCKED);
+                rep.inconclusive("locked-gate-not-reached");
+                let _ = settle(Duration::from_secs(40)).await;
+                continue;
+            }
+            // the periodic tick comes 20-26 s after the last report; one that does not come
+            // within the budget makes the iteration inconclusive
+            let periodic = wait_until(Duration::from_secs(40), |evs| {
+                evs[base..].iter().any(|e| e.name == "netreport.request" && e.get("why") == Some("Periodic") && e.get("outcome") == Some("deferred"))
+            })
+            .await;
+            gate::release(GATE_LOCKED);
+            gate::set_hold_limit(gate::HOLD_LIMIT);
+            let settled = settle(Duration::from_secs(40)).await;
+            rep.eval();
+            rep.count("periodic.iterations", 1);
+            if !periodic {
+                rep.inconclusive("no-periodic-request-while-run-held");
+            } else {
+                rep.count("periodic.request_deferred_while_run_held", 1);
+                let evs = gate::events();
+                let names: Vec<&str> = evs[base..].iter().map(|e| e.name).collect();
+                rep.nontrivial(format!("periodic{names:?}").as_bytes());
+            }
+            if !settled {
+                rep.inconclusive("iteration-did-not-settle");
+            }
+            run_oracle(&rep, "periodic-while-locked", it, json!({"mode": "periodic-while-locked"}));
+        }
         rep.set_extra("controlled_seconds", json!(t_ctl.elapsed().as_secs_f64()));
 
         // ---- stress mode: seeded sleeps at the pause point, rapid requests
@@ -486,6 +535,7 @@ fn main() {
     if a.replay.is_none() {
         rep.require("controlled.finishing_task_held", 8);
         rep.require("unlock_window.completion_handled_while_lock_busy_with_request_pending", 5);
+        rep.require("periodic.request_deferred_while_run_held", 1);
         rep.require("controlled.requests_deferred_during_run", 8);
         rep.require("stress.deferred_requests_handled", 5);
         rep.require("events.run_end", 20);
